@@ -1137,6 +1137,9 @@ class scope_extract:
         node = getattr(self, name, scope_extract_attribute_error)
         if not multiple:
             if value is scope_extract_is_disabled:
+                if node is not scope_extract_attribute_error:
+                    # a disabled object must not disturb what its active siblings of the same name supply
+                    return
                 value = None
             if (
                 node is scope_extract_attribute_error
@@ -1147,7 +1150,8 @@ class scope_extract:
             else:
                 node.__phil_join__(value)
         else:
-            if node is scope_extract_attribute_error:
+            if node is scope_extract_attribute_error or node is None:
+                # None: the placeholder left by a disabled sibling of the same name
                 node = scope_extract_list(optional=optional)
                 object.__setattr__(self, name, node)
             if value is not scope_extract_is_disabled and (
